@@ -217,6 +217,9 @@ func TestVerif_Routing(t *testing.T) {
 		asked := verifRoutingAsk(stk, sc.Spelling, listed)
 		target, hdrs, body := verifRequestFor(sc.Route, fmt.Sprintf("q%d", sn), asked)
 		switch sc.CType {
+		case "oddpath":
+			// a path no profile declares (a newer API of the backend): the body still names its model
+			target = strings.Replace(target, "/v1/chat/completions", "/v1/verif/newer-api", 1)
 		case "bigjson":
 			// a body beyond the 1 MiB the inspector looks at (a long conversation, an inlined image): still a request
 			// that names its model, first thing
